@@ -226,6 +226,10 @@ func (m *SQLModel) fillStmts(f *Func, site *SQLSite, q ast.Expr) {
 // constants, fmt.Sprintf with constant format (verbs become §), string
 // concatenation (non-constant parts become §), and local variables assigned
 // such expressions (all assignments, with `q += x` appended to each).
+// StringTemplates resolves the possible constant shapes of a string
+// expression (see sqlTemplates); non-constant parts appear as §.
+func StringTemplates(f *Func, e ast.Expr) []string { return sqlTemplates(f, e, 0) }
+
 func sqlTemplates(f *Func, e ast.Expr, depth int) []string {
 	if depth > 4 {
 		return []string{"§"}
@@ -248,7 +252,18 @@ func sqlTemplates(f *Func, e ast.Expr, depth int) []string {
 	case *ast.CallExpr:
 		if CallIs(f.Info(), x, "fmt.Sprintf") && len(x.Args) > 0 {
 			if format, ok := ConstString(f.Info(), x.Args[0]); ok {
-				return []string{fmtVerb.ReplaceAllString(format, "§")}
+				// substitute each verb by the (single) constant shape of its argument, else §
+				i := 0
+				out := fmtVerb.ReplaceAllStringFunc(format, func(v string) string {
+					i++
+					if i < len(x.Args) && strings.HasSuffix(strings.TrimRight(v, "'"), "s") {
+						if ts := sqlTemplates(f, x.Args[i], depth+1); len(ts) == 1 && !strings.Contains(ts[0], "§") {
+							return ts[0]
+						}
+					}
+					return "§"
+				})
+				return []string{out}
 			}
 		}
 		return []string{"§"}
